@@ -125,6 +125,7 @@ func checkC12(ck *Check) {
 	ck.storeCensus("C12.R4")
 	// R5 containment
 	ck.loopContainment("C12.R5")
+	ck.fatalErrorCreation("C12.R5")
 	// R6
 	ck.actionTargets("C12.R6")
 }
